@@ -76,7 +76,10 @@ ChkSynthesis(s, e, trk) ==
      (IF e.rs = 0 /\ e.rb = 0 /\ ~StoreOK(ActualB(s, e), Observed(e, e.hsp)) THEN {"BufferInsideRing"} ELSE {}) \cup
      (IF e.rs = 0 /\ e.rb = 0 /\ e.avail < 0 THEN {"PendingNeverNegative"} ELSE {}) \cup
      \* packets written by the model codeword by codeword: the decoder consumes exactly the bits the model wrote (it parsed the same codewords)
-     (IF ok /\ e.mut = 0 /\ e.rs = 0 /\ "xused" \in DOMAIN e /\ e.xused >= 0 /\ e.used # e.xused THEN {"PacketBitsConsumed"} ELSE {})
+     (IF ok /\ e.mut = 0 /\ e.rs = 0 /\ "xused" \in DOMAIN e /\ e.xused >= 0 /\ e.used # e.xused THEN {"PacketBitsConsumed"} ELSE {}) \cup
+     \* the integer domain of the floor: posts after unwrapping and the dB-table index at every bin, as computed by Floor1.tla for this packet
+     (IF ok /\ e.mut = 0 /\ e.rs = 0 /\ "xfit" \in DOMAIN e /\ e.fit # e.xfit THEN {"FloorPostsAsSpecified"} ELSE {}) \cup
+     (IF ok /\ e.mut = 0 /\ e.rs = 0 /\ "xyc" \in DOMAIN e /\ e.yc # e.xyc THEN {"FloorCurveAsSpecified"} ELSE {})
 DriftSynthesis(s, e, trk) ==
   IF s.nh = 3 /\ ~s.hsdirty /\ e.rs = 0 /\ e.rb = 0 /\ e.W \in {0, 1} /\ ~StateMatches(DecBlockin(s.B, s.m, e.W, e.no, e.gp, e.eos = 1, ~trk), e)
   THEN {"DecoderStateDiffersFromTranscription"} ELSE {}
